@@ -107,6 +107,14 @@ for store in (False, True):
     add(BD, "gzip_origin_other_traffic_between" + ("_store" if store else ""), cfgb,
         bfetch("r1", "k1") + bfetch("r2", "k2", "POST", "uncacheable") + bfetch("r3", "k2") + bfetch("r2", "k1") + bfetch("r3", "k2")
         + bfetch("r1", "k1", "POST", "uncacheable") + bfetch("r2", "k1") + bfetch("r3", "k2"))
+# GET and HEAD of one URL are separate entries: k2 is the HEAD request for k1's URL.  A HEAD after the GET's entry was stored, a HEAD
+# after its lifetime has passed without another GET, a GET after a HEAD was stored
+hcfg = {"disps": [{"name": "d1", "limit": 0, "hfp": 1, "store": False}], "keys": {"k1": 1, "k2": 1}, "head_twin": {"k2": "k1"}}
+def hfetch(r, k, ttl=1):
+    return [{"a": "Start", "p": r, "k": k, "d": "d1", "m": "GET"}] + R(r, 3) + [{"a": "FetchEndIf", "p": r, "out": "cacheable", "ttl": ttl}] + R(r, 8)
+add(BD, "head_after_get", hcfg, hfetch("r1", "k1", 2) + hfetch("r2", "k2", 2) + hfetch("r1", "k1", 2) + hfetch("r2", "k2", 2))
+add(BD, "head_after_the_get_expired", hcfg, hfetch("r1", "k1") + tick(3) + hfetch("r2", "k2") + hfetch("r3", "k1"))
+add(BD, "get_after_head", hcfg, hfetch("r2", "k2", 2) + hfetch("r1", "k1", 2) + tick(3) + hfetch("r1", "k1", 2) + hfetch("r2", "k2", 2))
 json.dump(BD, open(os.path.join(here, "body_directed.json"), "w"), indent=0)
 
 # the known finding KF-C18-evicted-inflight
